@@ -853,8 +853,31 @@ def entry_points(repo: Repo, rep, P: str):
                 named |= {c.value for c in ast.walk(d) if isinstance(c, ast.Constant) and isinstance(c.value, str)}
     via_table = {"attach_module", "attach_pattern"} <= named and any(isinstance(c, ast.Call) and norm(c.func) == "getattr" and c.args and norm(c.args[0]) == "self"
                                                                     for c in ast.walk(ia))
-    if not missing:
+    # structural form: self.attach_module(x) where x is known to be a Module, self.attach_pattern(y) where y is a pattern / clone,
+    # and the project itself is returned (whatever the operand variable is called and however nested lists are walked)
+    gi = CFG(ia)
+    domi = gi.dominators()
+    found = {"attach_module": None, "attach_pattern": None}
+    for n in gi.nodes:
+        if n.kind != "stmt" or n.ast is None:
+            continue
+        for c in ast.walk(n.ast):
+            if isinstance(c, ast.Call) and norm(c.func) in ("self.attach_module", "self.attach_pattern") and len(c.args) >= 1:
+                known = _facts(_dominating_conditions(gi, domi, n.id))
+                arg = norm(c.args[0])
+                what = norm(c.func).split(".")[-1]
+                if what == "attach_module":
+                    ok_ = f"isinstance({arg}, Module)" in known
+                else:
+                    ok_ = any(k in known for k in (f"isinstance({arg}, (Pattern, PatternClone))", f"isinstance({arg}, (PatternClone, Pattern))"))
+                found[what] = ok_ if found[what] is None else (found[what] and ok_)
+    returns_self = any(isinstance(r_, ast.Return) and r_.value is not None and norm(r_.value) == "self" for r_ in walk_no_nested(ia))
+    structural = found["attach_module"] is True and found["attach_pattern"] is True and returns_self
+    if not missing or structural:
         rep.ok(f"{P}.R2", f"{rel}:Project.__iadd__", "attach_module / attach_pattern / return self", "+= delegates to the attach operations")
+    elif found["attach_module"] is not None and found["attach_pattern"] is not None and returns_self:
+        rep.inconclusive(f"{P}.R2", f"{rel}:Project.__iadd__", src[:160], "the attach operations are called, but under type tests that are not recognised",
+                         f"{rel}:{ia.lineno}")
     elif via_table:
         rep.inconclusive(f"{P}.R2", f"{rel}:Project.__iadd__", src[:160], "+= dispatches through a table of method names: which operand reaches which "
                          "attach operation is not decided", f"{rel}:{ia.lineno}")
